@@ -256,3 +256,145 @@ theorem point_multiPoint_graph (ar : Arith) (p : Pt) (qs : List Pt) {m : IM}
       (Geo.Proofs.Loc.coordPos_multiPoint_eq_locate qs p) X Y hX
 
 end Geo.Proofs.RELM3
+
+namespace Geo.Proofs.RELM3
+open Geo Geo.GG Geo.RI Geo.Proofs.Spec Geo.Proofs.RELM Geo.Proofs.RELM2 Geo.Proofs.Kernel
+
+/-- **`relate(Point p, B) = relateSpec (Point p) B`, the whole matrix, on the graph path, for every point-like `B` of the
+domain — Point, MultiPoint and collections of them** (any arithmetic) -/
+theorem point_ptOk_graph (ar : Arith) (p : Pt) (g : Geom) (hd : inDomain g = true) (hp : ptOk g = true) {m : IM}
+    (h : relateGraph ar (.point p) g = some m) : m = relateSpec (.point p) g := by
+  obtain ⟨h1, h2, h3⟩ := addGeometry_points 1 g Graph.empty hp
+  have hB : buildGraph 1 g = addPoints 1 (parts g).pts Graph.empty := h1
+  obtain ⟨e1, _, e3, e4⟩ := addPoints_spec 1 (parts g).pts Graph.empty
+  have hE : (freshGraph ar 1 g).edges = [] := by
+    rw [fresh_edges, hB, e1]
+    rfl
+  have hnodes : (freshGraph ar 1 g).nodes = (addPoints 1 (parts g).pts Graph.empty).nodes := by
+    rw [fresh_nodes_of_no_eis ar 1 g (fun e he => by rw [hE] at he; cases he), hB]
+  have hin : ∀ n ∈ (freshGraph ar 1 g).nodes, n.label.onPos 1 = some .inside := by
+    rw [hnodes]; exact e3 (fun n hn => by cases hn)
+  have hN : NInv 1 (freshGraph ar 1 g).nodes := by
+    rw [hnodes]
+    have : ∀ (ps : List Pt) (G : Graph), NInv 1 G.nodes → NInv 1 (addPoints 1 ps G).nodes := by
+      intro ps
+      induction ps with
+      | nil => intro G h; exact h
+      | cons x xs ih => intro G h; exact ih _ (ninv_insertPoint h x .inside)
+    exact this _ _ (ninv_nil 1)
+  have hparts : parts g = ⟨(parts g).pts, [], []⟩ := by
+    cases hpg : parts g with
+    | mk pts curves areas =>
+      rw [hpg] at h2 h3
+      simp only at h2 h3
+      subst h2 h3
+      rfl
+  obtain ⟨i1, i2⟩ := point_ext_row_points ar p g hE hin hN h
+  obtain ⟨s1, s2⟩ := spec_ext_row_points p (parts g).pts
+  have hspec : relateSpec (.point p) g = relateParts ⟨[p], [], []⟩ ⟨(parts g).pts, [], []⟩ := by
+    unfold relateSpec
+    rw [← hparts]
+    rfl
+  have hmemq : (∃ n ∈ (freshGraph ar 1 g).nodes, n.coord ≠ p) ↔ ∃ q ∈ (parts g).pts, q ≠ p := by
+    rw [hnodes]
+    constructor
+    · rintro ⟨n, hn, hnc⟩
+      have := (e4 n.coord).1 (List.mem_map.2 ⟨n, hn, rfl⟩)
+      rcases this with h' | h'
+      · exact ⟨n.coord, h', hnc⟩
+      · simp [Graph.empty] at h'
+    · rintro ⟨q, hq, hqp⟩
+      have := (e4 q).2 (Or.inl hq)
+      obtain ⟨n, hn, hnc⟩ := List.mem_map.1 this
+      exact ⟨n, hn, by rw [hnc]; exact hqp⟩
+  apply im_ext
+  intro X Y
+  by_cases hX : X = .outside
+  · subst hX
+    cases Y with
+    | inside =>
+      rw [hspec]
+      apply Dim.eq_of_le_iff
+      intro d
+      rw [i1, hmemq]
+      exact (s1 d).symm
+    | onBoundary => rw [i2, hspec]; exact s2.symm
+    | outside =>
+      have e1' : m.ee = .two := relateGraph_ee _ _ _ h
+      have e2 : (relateSpec (.point p) g).get .outside .outside = .two := by
+        unfold relateSpec
+        rw [relateParts_eq, get_set, if_pos ⟨rfl, rfl⟩]
+      rw [e2]
+      exact e1'
+  · exact point_rows_eq_spec_of_nodesLocate_off ar p g h (nodesLocate_points ar g hp).1 (nodesLocate_points ar g hp).2
+      (fun _ => Geo.Proofs.C02X.coordPos_dom g p hd (noK9_points p g hp)) X Y hX
+
+end Geo.Proofs.RELM3
+
+namespace Geo.Proofs.RELM3
+open Geo Geo.GG Geo.RI Geo.Proofs.Spec Geo.Proofs.RELM Geo.Proofs.RELM2 Geo.Proofs.Kernel
+
+/-! ### a linear collection with a bounding rectangle has an edge -/
+
+mutual
+theorem long_of_boundingRect_lin : ∀ (g : Geom), inDomain g = true → linOk g = true → boundingRect g ≠ none →
+    ∃ l ∈ (parts g).curves, Long l
+  | .line a c, hd, _, hr => long_of_boundingRect hd rfl hr
+  | .lineString cs, hd, _, hr => long_of_boundingRect hd rfl hr
+  | .multiLineString ls, hd, _, hr => long_of_boundingRect hd rfl hr
+  | .collection gs, hd, hl, hr => by
+      have hl' : linOkList gs = true := by simpa [linOk] using hl
+      have hd' : inDomainList gs = true := by
+        simp only [inDomain, Bool.and_eq_true] at hd
+        exact hd.2
+      have hr' : boundingRectList none gs ≠ none := by simpa [boundingRect] using hr
+      rcases long_of_boundingRectList gs none hd' hl' (fun _ => hr') with h' | ⟨l, hlm, hlong⟩
+      · exact absurd rfl h'
+      · exact ⟨l, by simpa [parts] using hlm, hlong⟩
+  | .point _, _, h, _ => by simp [linOk] at h
+  | .polygon _, _, h, _ => by simp [linOk] at h
+  | .multiPoint _, _, h, _ => by simp [linOk] at h
+  | .multiPolygon _, _, h, _ => by simp [linOk] at h
+  | .rect _ _, _, h, _ => by simp [linOk] at h
+  | .triangle _ _ _, _, h, _ => by simp [linOk] at h
+theorem long_of_boundingRectList : ∀ (gs : List Geom) (acc : Option (Pt × Pt)), inDomainList gs = true →
+    linOkList gs = true → (acc = none → boundingRectList acc gs ≠ none) →
+    acc ≠ none ∨ ∃ l ∈ (partsList gs).curves, Long l
+  | [], acc, _, _, h => by
+      by_cases ha : acc = none
+      · exact absurd (by rw [ha]; rfl) (h ha)
+      · exact Or.inl ha
+  | g :: gs, acc, hd, hl, h => by
+      simp only [inDomainList, Bool.and_eq_true] at hd
+      simp only [linOkList, Bool.and_eq_true] at hl
+      by_cases ha : acc = none
+      · right
+        subst ha
+        have hrl := h rfl
+        simp only [boundingRectList] at hrl
+        by_cases hg : boundingRect g = none
+        · rw [hg] at hrl
+          have hstep : bboxFoldStep none none = none := rfl
+          rw [hstep] at hrl
+          rcases long_of_boundingRectList gs none hd.2 hl.2 (fun _ => hrl) with h' | ⟨l, hlm, hlong⟩
+          · exact absurd rfl h'
+          · exact ⟨l, by simp only [partsList, Parts.append, List.mem_append]; exact Or.inr hlm, hlong⟩
+        · obtain ⟨l, hlm, hlong⟩ := long_of_boundingRect_lin g hd.1 hl.1 hg
+          exact ⟨l, by simp only [partsList, Parts.append, List.mem_append]; exact Or.inl hlm, hlong⟩
+      · exact Or.inl ha
+end
+
+/-- **`relate(Point p, B) = relateSpec (Point p) B`, the whole matrix, on the graph path, for every linear `B` of the
+domain, collections included** (the envelope test passed, so `B` has an edge) -/
+theorem point_linOk_graph (p : Pt) (b : Geom) (hd : inDomain b = true) (hl : linOk b = true)
+    (henv : envelopesMeet (.point p) b = true) {m : IM}
+    (h : relateGraph Arith.exact (.point p) b = some m) : m = relateSpec (.point p) b := by
+  have hr : boundingRect b ≠ none := by
+    intro e
+    unfold envelopesMeet at henv
+    rw [e] at henv
+    cases hbp : boundingRect (.point p) <;> rw [hbp] at henv <;> cases henv
+  exact point_linear_full p b hd hl
+    (fresh_edges_ne_nil _ (linearAs_of_linOk b hd hl) (long_of_boundingRect_lin b hd hl hr)) h
+
+end Geo.Proofs.RELM3
